@@ -431,6 +431,14 @@ pub const FINDINGS: &[Finding] = &[
         },
     },
     Finding {
+        key: "wide-copy-shares-load",
+        what: "JIT and cc: `assign o = v;` copying a variable wider than 64 bits into a target of another width makes other expressions of the module that read `v` see a wrongly extended / shifted value (the load is shared; shows as `interference/*`: the outputs are right when each is alone in a module)",
+        hit: |m, n| match n.e {
+            Expr::Ref(r) => n.root && matches!(r.sel, Sel::None) && r.idx.is_none() && r.field.is_none() && ty_of(m, n.e).w > 64 && n.dest_w != ty_of(m, n.e).w,
+            _ => false,
+        },
+    },
+    Finding {
         key: "cranelift-panic-signed-compare-in-wide-context",
         what: "JIT: a comparison of signed operands used as an operand in a context wider than 64 bits (`~(a <: b)` into 70 bits) panics inside Cranelift lowering (`Option::unwrap()` on `None`)",
         hit: |m, n| match n.e {
